@@ -698,6 +698,146 @@ func ruleSQL(c *Ctx) {
 		okChk := len(c.allCallsDeepTo(cts.Body, "types.Equals")) == 1 && len(c.allCallsDeepTo(cts.Body, "val.Env.ForEach")) == 1
 		c.R.Check(okChk, "ext.CompileToSql", "SQL-2 bound values are type-checked against the model", cts.Pos(), "types.Equals per binding before emission", "run-time bindings are not compared with the model's types")
 	}
+	c.sqlCriteria()
+}
+
+// SQL-6: a criteria tree is lowered member by member. Every member is lowered by its own expr(); code that looks INTO a
+// member (a type assertion / type switch on a Criteria value: flattening, collapsing, simplifying nested groups) changes the
+// nesting, which the property permits only up to the associativity of AND and of OR — so the branch that uses the result of
+// such an inspection must be control-dependent on the group's connective being AND/OR (`!= NOT`, `== AND`, `== OR`).
+func (c *Ctx) sqlCriteria() {
+	pk := c.Mod["ext"]
+	if pk == nil {
+		c.R.Anchor("ext")
+		return
+	}
+	ge := c.FuncDecl("ext", "CondGroup.expr")
+	if ge == nil {
+		c.R.Anchor("ext.CondGroup.expr")
+		return
+	}
+	// positive control: members are lowered through the interface method, the callee is the connective's name
+	lowered := 0
+	for _, call := range c.calls(ge.Body) {
+		if se, ok := call.Fun.(*ast.SelectorExpr); ok && se.Sel.Name == "expr" && typeStr(c.typeOf(se.X)) == "ext.Criteria" {
+			lowered++
+		}
+	}
+	if lowered == 0 {
+		// lowered through a helper in the same package
+		for _, f := range pk.Syntax {
+			for _, call := range c.calls(f) {
+				if se, ok := call.Fun.(*ast.SelectorExpr); ok && se.Sel.Name == "expr" && typeStr(c.typeOf(se.X)) == "ext.Criteria" {
+					lowered++
+				}
+			}
+		}
+	}
+	c.R.Check(lowered >= 1, "ext.CondGroup.expr", "SQL-6 members are lowered by their own expr()", ge.Pos(), "each member contributes its own sub-tree", "no member of a group is lowered through Criteria.expr()")
+	isRestr := func(pc pathCond) bool {
+		for _, a := range andParts(pc.e) {
+			b, ok := unparen(a).(*ast.BinaryExpr)
+			if !ok {
+				continue
+			}
+			lt, rt := typeStr(c.typeOf(b.X)), typeStr(c.typeOf(b.Y))
+			if lt != "ext.LogicalOper" && rt != "ext.LogicalOper" {
+				continue
+			}
+			k := ""
+			for _, e := range []ast.Expr{b.X, b.Y} {
+				if id, ok := unparen(e).(*ast.Ident); ok {
+					if _, isConst := c.objOf(id).(*types.Const); isConst {
+						k = id.Name
+					}
+				}
+				if se, ok := unparen(e).(*ast.SelectorExpr); ok {
+					if _, isConst := c.objOf(se.Sel).(*types.Const); isConst {
+						k = se.Sel.Name
+					}
+				}
+			}
+			switch {
+			case pc.pos && b.Op == token.NEQ && k == "NOT", pc.pos && b.Op == token.EQL && (k == "AND" || k == "OR"), !pc.pos && b.Op == token.EQL && k == "NOT" && len(andParts(pc.e)) == 1:
+				return true
+			}
+		}
+		return false
+	}
+	n := 0
+	for _, f := range pk.Syntax {
+		for _, d := range f.Decls {
+			fd, ok := d.(*ast.FuncDecl)
+			if !ok || fd.Body == nil {
+				continue
+			}
+			name := fnName("ext", fd)
+			var g *FnCFG
+			check := func(at ast.Node, what string, body []ast.Stmt) {
+				n++
+				if g == nil {
+					g = c.buildCFG(fd.Body)
+				}
+				if len(body) == 0 {
+					c.R.OKTrivial(name, "SQL-6 "+what, at.Pos(), "result unused")
+					return
+				}
+				ok := false
+				for _, pc := range g.condsAt(body[0]) {
+					if isRestr(pc) {
+						ok = true
+					}
+				}
+				c.R.Check(ok, name, "SQL-6 "+what+" only under an AND/OR connective", at.Pos(), "the branch is control-dependent on the connective being AND or OR, whose associativity licenses re-nesting", "a member of a group is taken apart ("+what+") on a path that is not restricted to AND/OR: splicing or collapsing nested groups is sound only for the associative connectives — NOT{NOT{x}} would lose a negation and the WHERE text no longer has the tree's nesting")
+			}
+			ast.Inspect(fd.Body, func(x ast.Node) bool {
+				switch s := x.(type) {
+				case *ast.IfStmt:
+					if s.Init != nil {
+						found := ""
+						ast.Inspect(s.Init, func(y ast.Node) bool {
+							if ta, ok := y.(*ast.TypeAssertExpr); ok && ta.Type != nil && typeStr(c.typeOf(ta.X)) == "ext.Criteria" {
+								found = src(ta)
+							}
+							return true
+						})
+						if found != "" {
+							check(s, "type assertion "+found, s.Body.List)
+						}
+					}
+				case *ast.TypeSwitchStmt:
+					if e := tsScrutinee(s); e != nil && typeStr(c.typeOf(e)) == "ext.Criteria" {
+						for _, cc := range s.Body.List {
+							cl := cc.(*ast.CaseClause)
+							if cl.List == nil {
+								continue
+							}
+							check(cl, "type switch case "+src(cl.List[0]), cl.Body)
+						}
+					}
+				case *ast.AssignStmt:
+					for _, r := range s.Rhs {
+						if ta, ok := unparen(r).(*ast.TypeAssertExpr); ok && ta.Type != nil && typeStr(c.typeOf(ta.X)) == "ext.Criteria" {
+							// plain assignment: everything after it depends on it
+							n++
+							if g == nil {
+								g = c.buildCFG(fd.Body)
+							}
+							ok := false
+							for _, pc := range g.condsAt(s) {
+								if isRestr(pc) {
+									ok = true
+								}
+							}
+							c.R.Check(ok, name, "SQL-6 type assertion "+src(ta)+" only under an AND/OR connective", s.Pos(), "restricted to AND/OR", "a member of a group is taken apart outside an AND/OR-only path: re-nesting is sound only for the associative connectives")
+						}
+					}
+				}
+				return true
+			})
+		}
+	}
+	_ = n
 }
 
 // ---------- DEBUG ----------
@@ -770,6 +910,108 @@ func ruleDebug(c *Ctx) {
 			ok = s == "[(ExprStmt (CallExpr Fun:(SelectorExpr (TypeAssertExpr (SelectorExpr $0 Sel:Dgb) Type:(StarExpr (SelectorExpr debug Sel:Record))) Sel:Clear))) (ReturnStmt Results:[(CallExpr Fun:$1 Args:[$0])])]" && c.hasNode(dc, dc.Body, "(AssignStmt Lhs:[$0] Tok::= Rhs:[(CallExpr Fun:compile Args:[$p0 $p1 true])])", false)
 		}
 		c.R.Check(ok, "closure.DebugCompile", "DB-4 record cleared at the start of each run", dc.Pos(), "Clear(); return closure(env)", "the record is not cleared before each run (values of an earlier run would be reported)")
+	}
+	// DB-6 Clear leaves no state of an earlier run behind
+	if cl := c.FuncDecl("debug", "Record.Clear"); cl != nil {
+		pk := c.Mod["debug"]
+		var st *types.Struct
+		if o := pk.Types.Scope().Lookup("Record"); o != nil {
+			st, _ = o.Type().Underlying().(*types.Struct)
+		}
+		// all assignments to fields of Record in the package: field -> [](function, rhs)
+		type asg struct {
+			fn  *ast.FuncDecl
+			rhs ast.Expr
+			lhs ast.Expr
+		}
+		stores := map[string][]asg{}
+		for _, f := range pk.Syntax {
+			for _, d := range f.Decls {
+				fd, ok := d.(*ast.FuncDecl)
+				if !ok || fd.Body == nil {
+					continue
+				}
+				ast.Inspect(fd.Body, func(x ast.Node) bool {
+					as, ok := x.(*ast.AssignStmt)
+					if !ok || len(as.Lhs) != len(as.Rhs) {
+						return true
+					}
+					for i, l := range as.Lhs {
+						if se, ok := unparen(l).(*ast.SelectorExpr); ok && strings.HasSuffix(typeStr(c.typeOf(se.X)), "debug.Record") {
+							stores[se.Sel.Name] = append(stores[se.Sel.Name], asg{fd, as.Rhs[i], l})
+						}
+					}
+					return true
+				})
+			}
+		}
+		isFresh := func(e ast.Expr) bool {
+			e = unparen(e)
+			switch x := e.(type) {
+			case *ast.CompositeLit:
+				return true
+			case *ast.Ident:
+				return x.Name == "nil" || c.constOf(x) != nil
+			case *ast.BasicLit:
+				return true
+			case *ast.CallExpr:
+				nm := c.calleeName(x)
+				return nm == "builtin.make" || nm == "builtin.new"
+			}
+			return c.constOf(e) != nil
+		}
+		if st != nil {
+			for i := 0; i < st.NumFields(); i++ {
+				fname := st.Field(i).Name()
+				var inClear []asg
+				for _, a := range stores[fname] {
+					if a.fn == cl {
+						inClear = append(inClear, a)
+					}
+				}
+				desc := "DB-6 Clear resets field " + fname
+				switch {
+				case len(inClear) != 1:
+					c.R.Bad("debug.Record.Clear", desc, cl.Pos(), "field %s of the record is not reset by Clear (exactly one assignment expected, found %d): state of an earlier evaluation survives into the next report", fname, len(inClear))
+				case isFresh(inClear[0].rhs):
+					c.R.OK("debug.Record.Clear", desc, inClear[0].rhs.Pos(), "assigned a fresh value: nothing of the earlier run is reachable")
+				default:
+					// truncation F = F[:0] keeps the old backing array: sound only if every other store to F is F = append(F, ..),
+					// which overwrites before it exposes; any re-slice upwards would resurrect stale elements
+					okTrunc := false
+					if sl, ok := unparen(inClear[0].rhs).(*ast.SliceExpr); ok && sl.Low == nil && sl.High != nil && !sl.Slice3 && sx(unparen(sl.X)) == sx(unparen(inClear[0].lhs)) {
+						if v := c.constOf(sl.High); v != nil && v.String() == "0" {
+							okTrunc = true
+						}
+					}
+					bad := ""
+					if okTrunc {
+						for _, a := range stores[fname] {
+							if a.fn == cl {
+								continue
+							}
+							ce, isCall := unparen(a.rhs).(*ast.CallExpr)
+							if isFresh(a.rhs) {
+								continue
+							}
+							if isCall && c.calleeName(ce) == "builtin.append" && len(ce.Args) >= 1 && sx(unparen(ce.Args[0])) == sx(unparen(a.lhs)) {
+								continue
+							}
+							bad = fmt.Sprintf("%s = %s in %s", src(a.lhs), src(a.rhs), a.fn.Name.Name)
+						}
+					}
+					if okTrunc && bad == "" {
+						c.R.OK("debug.Record.Clear", desc, inClear[0].rhs.Pos(), "truncated to length 0 and afterwards only grown by append, which overwrites every slot before exposing it")
+					} else if okTrunc {
+						c.R.Bad("debug.Record.Clear", desc, inClear[0].rhs.Pos(), "Clear only truncates %s (the old backing array is kept) and %s grows it other than by append: elements written by an earlier evaluation become visible again, so later reports attribute values to wrong columns", fname, bad)
+					} else {
+						c.R.Bad("debug.Record.Clear", desc, inClear[0].rhs.Pos(), "Clear assigns %s = %s, which is neither a fresh value nor a truncation to length 0: state of an earlier evaluation survives", fname, src(inClear[0].rhs))
+					}
+				}
+			}
+		}
+	} else {
+		c.R.Anchor("debug.Record.Clear")
 	}
 	// DB-3 column flow in the parser
 	for fn, want := range map[string]string{"parseCall": "(CallExpr Fun:(SelectorExpr pos Sel:DBGCol) Args:[(SelectorExpr $p3 Sel:Col)])", "parseDot": "(CallExpr Fun:(SelectorExpr pos Sel:DBGCol) Args:[(SelectorExpr $p3 Sel:Col)])", "parseSubscript": "(CallExpr Fun:(SelectorExpr pos Sel:DBGCol) Args:[(SelectorExpr $p3 Sel:Col)])"} {
